@@ -134,6 +134,29 @@ class validation_precedes_parsing:
             out.append(dict(bad=b, string="12/13/2020", entry="parse",
                             extra=["RELATIVE_BASE", ["dt", "2020-05-15T12:00:00"]]))
             out.append(dict(bad=b, string="x", entry="DateDataParser", extra=None))
+        # every documented invalid value, alone (so every other setting keeps its default), and the
+        # wrongly typed values that compare EQUAL to the default (0 == False, 1000.0 == 1000, ...)
+        seen = set(repr(x) for x in bad)
+        more = [[k, _js(v)] for k, v, ok in _setting_cases() if not ok]
+        from dateparser_data.settings import settings as defaults
+
+        for k, d in sorted(defaults.items()):
+            if k not in SETTING_VALUES:
+                continue
+            if isinstance(d, bool):
+                more.append([k, int(d)])
+            elif isinstance(d, int):
+                more.append([k, float(d)])
+            elif d is None and k != "RELATIVE_BASE":
+                more.append([k, False])
+            elif d is None:
+                more += [[k, False], [k, 0]]
+        for b in more:
+            if repr(b) in seen:
+                continue
+            seen.add(repr(b))
+            out.append(dict(bad=b, string="12/13/2020", entry="parse", extra=None))
+            out.append(dict(bad=b, string="x", entry="DateDataParser", extra=None))
         return out
 
     @staticmethod
